@@ -68,7 +68,7 @@ Lemma ok_read_message : ok AS KM 12 read_message.
 Proof.
   unfold read_message, KM.
   ok_by (eapply ok_bind; [apply (okA AS 0 _ _ _ ok_read_header); unfold AS; lia|intros h];
-         eapply ok_bind; [apply (ok_weaken (0 + (516 + 1)) (516 + 1) 0 AS 517 0); [apply (ok_repeat 0 516 5); [intros; ok_by (eapply ok_bind; [apply ok_read_query|intros; apply ok_ret])|lia]|unfold AS, AR, KREC; lia|lia|lia]|intros qs];
+         eapply ok_bind; [apply (ok_weaken (0 + 104) (516 + 1) 0 AS 517 0); [apply (ok_repeat_q 0 516 5 104); [intros; ok_by (eapply ok_bind; [apply ok_read_query|intros; apply ok_ret])|lia]|unfold AS, AR; lia|lia|lia]|intros qs];
          apply ok_read_sections).
 Qed.
 
